@@ -123,7 +123,7 @@ def run : List String → Option String
     let lvl ← if lvl == "pool" then some Level.pool else if lvl == "manager" then some Level.manager else none
     let os ← outs.toList.mapM outcome?
     let r := sendHistory lvl cfg (← str? t) (← bool? ch) os
-      ⟨← str? m, ← pairs? hs, ← body? body, .none, false⟩
+      ⟨← str? m, ← pairs? hs, ← body? body, .none, false, none⟩
     let res := match r.result with | .ok _ => "ok" | .error e => excName e
     pure (s!"result={res} n={r.attempts.length}" ++ String.join (r.attempts.map fun a => " " ++ showStr a.wire))
   | ["h2", n, v] => do
